@@ -30,3 +30,15 @@ claim("C19", "round-trip property over generated trees",
       "Parsed generated documents and the repository's example queries are encoded with encoding/json and decoded back; projections (positions and comments excluded) must be equal and a second trip stable.",
       "Search over the tree generator's distribution; equality on the harness projection.",
       "6/C19")
+claim("C07", "model-based testing: valid-by-construction typed schema generator, one-fault-per-rule catalogue (32 operators), random SDL; oracle = independent reference validator + graph post-conditions",
+      "Generated valid schemas must load and generated single-fault schemas must be rejected; on random SDL the verdict must equal the reference validator's. Every loaded schema is compared with the merged definitions (types, fields, directives, roots by pointer identity, built-ins, introspection fields) and its PossibleTypes/Implements relations with the relations the definitions imply.",
+      "Trusted: harness/ref/schema.go (rule list of the property statement; self-checked: every generated valid schema is valid for it, every fault operator's rule is reported by it). Regions where the statement does not determine the verdict are excluded (DESIGN.md 7).",
+      "6/C07")
+claim("C13", "round-trip property over generated trees / typed schemas crossed with the complete formatter configuration space",
+      "Document level: generated type-system trees formatted under all 112 configurations, re-parsed, compared by projection, fixpoint. Schema level: generated valid schemas loaded, formatted under all configurations without WithBuiltin, reloaded, canonical schemas compared, fixpoint.",
+      "Two deviations pinned by the repository's golden files are recorded as known findings with narrow relaxations (schema description; comma after hidden descriptions).",
+      "6/C13")
+claim("C17", "metamorphic testing: permutations and partitions of top-level pieces of generated schemas (valid and single-fault)",
+      "Each generated schema is loaded in a single-source baseline order, with extensions first (one and two sources), reversed, and under 4 (quick) / 20 (thorough) random permutations partitioned into 1-5 named sources; verdict and canonical schema must be identical, and a load error must name a file containing a piece of a definition the reference validator reports as involved.",
+      "Fields are compared as sets per type as the property states; 'involved' is the union over all violations the reference reports, so the file check is sound but coarse.",
+      "6/C17")
